@@ -35,9 +35,9 @@ manifest = {
         "add_only": True,
     },
     "engines": [
-        {"name": "E1 sequence/state explorer", "path": "harness/explore.hpp", "serves_properties": ["C03", "C07", "C08", "C12", "C15", "C19"], "kind_free_text": "explicit-state BFS over operation histories replayed on fresh objects, canonical state = checkpoint text / grid / weight bits"},
-        {"name": "E2 MPI environment explorer", "path": "harness/mpienv.hpp", "serves_properties": ["C04", "C16", "C19", "C12", "C20"], "kind_free_text": "stateless exploration by re-execution: all reduction orders of every collective, hang detection"},
-        {"name": "E3 crash-point enumerator", "path": "harness/fslog.hpp", "serves_properties": ["C18"], "kind_free_text": "interposed file system calls; every prefix of the operation log x every byte prefix of the write in flight"},
+        {"name": "E1 sequence/state explorer", "path": "checks/c03.cpp checks/c07.cpp checks/c08.cpp checks/c12.cpp checks/c15.cpp checks/c19.cpp checks/c01.cpp", "serves_properties": ["C01", "C03", "C07", "C08", "C12", "C15", "C19"], "kind_free_text": "explicit-state BFS / stateless DFS over operation histories on real (copyable) objects, canonical state = checkpoint text / grid bits / weight bits; the loops live inside each check because state type and alphabet differ"},
+        {"name": "E2 MPI environment explorer", "path": "harness/mpienv.hpp", "serves_properties": ["C04", "C16", "C19", "C12", "C20", "C07", "C08"], "kind_free_text": "stateless exploration by re-execution: all reduction orders of every collective, hang detection, sub-communicator with ranks different from the world ranks"},
+        {"name": "E3 crash-point enumerator", "path": "harness/fslog.hpp", "serves_properties": ["C18"], "kind_free_text": "interposed file system calls; every prefix of the operation log x every byte prefix of the write in flight; injected rename failures; real-kill validation"},
         {"name": "scripted engines", "path": "harness/engines.hpp", "serves_properties": ["C01", "C02", "C06", "C09", "C10", "C11", "C17"], "kind_free_text": "scripted / lattice / variable-range / counting random engines that make generator outputs an enumerable input"},
     ],
     "checks": checks,
